@@ -77,6 +77,19 @@ def jobs_for(tier, rng):
         jobs.append({"mdp": m, "kind": kind, "gamma": rng.choice([[1, 2], [3, 4], [1, 1]]) if kind == "VI" else [1, 2],
                      "eps": [1, 6], "test": rng.choice(["span", "max_diff"]), "calls": rng.choice([[1, 30], [2, 30], [1, 1, 30]]),
                      "mbs": rng.choice([3, 1024]), "shuffle": False, "tag": f"dag-{kind}{k}", "min_sweeps": 3})
+    # solvers of all four families solving at the same time in threads of one process
+    for g in range(2 if tier == "quick" else 8):
+        group = []
+        for k, kind in enumerate(["VI", "SAVI", "RVI", "PVI", "VI", "SAVI"]):
+            m = gen.unichain(rng, ns=4, v0max=1, PD=2) if kind == "RVI" else (gen.ring(rng, 3, extra=1, v0max=1) if kind == "PVI"
+                                                                          else gen.union(rng, 3, PD=2, v0max=1, plain=True))
+            job = {"mdp": m, "kind": kind, "gamma": [1, 1] if kind in ("RVI", "PVI") else [1, 2], "eps": [1, 4], "test": "span",
+                   "calls": [3, 4], "mbs": rng.choice([2, 1024]), "shuffle": kind == "SAVI" and k > 2, "seed": 3 + k,
+                   "tag": f"threads{g}.{k}-{kind}", "min_sweeps": 2}
+            if kind == "PVI":
+                job.update({"period": 2, "clear": False})
+            group.append(job)
+        jobs.append({"group": group, "tag": f"threads{g}"})
     # many solve() calls on one solver
     for k, kind in enumerate(["VI", "SAVI", "RVI", "PVI"]):
         m = gen.unichain(rng, v0max=1, PD=2) if kind == "RVI" else gen.ring(rng, 3, extra=2, v0max=1)
